@@ -4,10 +4,10 @@ package main
 
 import (
 	"fmt"
-	"sync"
 	"go/types"
 	"sort"
 	"strings"
+	"sync"
 )
 
 type sortReg struct {
